@@ -216,3 +216,78 @@ func genTypeIdx(t *rapid.T, label string) int {
 	}
 	return rapid.IntRange(0, len(Pool)-1).Draw(t, label)
 }
+
+// argSet is a generated argument list.
+type argSet struct {
+	Args   []SV
+	Spread SV
+}
+
+// genArgs draws the arguments for a function with the given fixed parameter types and
+// optional variadic element type, in plain or spread shape; delta -1/+1 asks for too few /
+// too many arguments.
+func genArgs(t *rapid.T, fixedT []reflect.Type, varElem reflect.Type, hasSpread bool, delta int) argSet {
+	as := argSet{Args: []SV{}}
+	nFixed := len(fixedT)
+	switch {
+	case varElem == nil && !hasSpread:
+		n := nFixed + delta
+		for i := 0; i < n; i++ {
+			if i < nFixed {
+				as.Args = append(as.Args, genSVFor(t, fixedT[i], 2))
+			} else {
+				as.Args = append(as.Args, genSV(t, 1))
+			}
+		}
+	case varElem != nil && !hasSpread:
+		for i := 0; i < nFixed; i++ {
+			as.Args = append(as.Args, genSVFor(t, fixedT[i], 2))
+		}
+		if delta < 0 && nFixed > 0 {
+			as.Args = as.Args[:nFixed-1]
+			break
+		}
+		nt := rapid.IntRange(0, 3).Draw(t, "ntail")
+		for i := 0; i < nt; i++ {
+			as.Args = append(as.Args, genSVFor(t, varElem, 2))
+		}
+	case varElem == nil && hasSpread:
+		maxPlain := nFixed
+		if nFixed > 0 && rapid.IntRange(0, 9).Draw(t, "fullplain") > 0 {
+			maxPlain = nFixed - 1 // leave at least one parameter to the spread list
+		}
+		m := rapid.IntRange(0, maxPlain).Draw(t, "nplain")
+		for i := 0; i < m; i++ {
+			as.Args = append(as.Args, genSVFor(t, fixedT[i], 2))
+		}
+		sk := rapid.IntRange(0, 19).Draw(t, "spreadkind")
+		switch {
+		case sk == 0:
+			as.Spread = genSV(t, 1) // often not a list
+		case sk < 4:
+			as.Spread = genGo(t, goSlices) // a typed Go slice or array
+		default:
+			sp := SV{K: "l", L: []SV{}}
+			n := nFixed - m + delta
+			for i := 0; i < n; i++ {
+				if m+i < nFixed {
+					sp.L = append(sp.L, genSVFor(t, fixedT[m+i], 1))
+				} else {
+					sp.L = append(sp.L, genSV(t, 1))
+				}
+			}
+			as.Spread = sp
+		}
+	default:
+		m := nFixed + delta
+		for i := 0; i < m; i++ {
+			if i < nFixed {
+				as.Args = append(as.Args, genSVFor(t, fixedT[i], 2))
+			} else {
+				as.Args = append(as.Args, genSV(t, 1))
+			}
+		}
+		as.Spread = genSVFor(t, reflect.SliceOf(varElem), 2)
+	}
+	return as
+}
